@@ -389,7 +389,7 @@ def ticked_rec(r0, f, turn):
 # ---------------------------------------------------------------- C06: snapshot helpers
 
 @spec
-def clampf(x, lo, hi):
+def clampf_snap(x, lo, hi):
     return ite(x < lo, lo, ite(x > hi, hi, x))
 
 
@@ -453,4 +453,4 @@ def wkey(rec):
 @spec
 def san_weight(w, wmin, wmax, eps):
     """the weight `_sanitize_gel_for_write` stores for an input weight w"""
-    return ite(absr(round6(clampf(w, wmin, wmax))) < eps, 0.0, round6(clampf(w, wmin, wmax)))
+    return ite(absr(round6(clampf_snap(w, wmin, wmax))) < eps, 0.0, round6(clampf_snap(w, wmin, wmax)))
